@@ -72,6 +72,20 @@ def eval_valid(case):
                     k_mix = relative_permeabilities(np.concatenate([sat, sat_records([(0.5004 * 1.0, 0.3002, 0.2002)])]), prm)
             except Exception:  # noqa: BLE001
                 pass
+            # process-wide numerical settings a user may have chosen: floating-point errors raised (np.seterr(all="raise")) and
+            # warnings turned into errors - admissible input still returns, and returns the same values
+            import warnings  # noqa: PLC0415
+            try:
+                with np.errstate(all="raise"), warnings.catch_warnings():
+                    warnings.simplefilter("error")
+                    k_strict = relative_permeabilities(sat.copy(), prm)
+                if any(not np.array_equal(np.asarray(k_strict[nm], dtype=float), np.asarray(k[nm], dtype=float), equal_nan=True)
+                       for nm in ("kro", "krw", "krg")):
+                    viol.append(V("valid/strict-numpy-settings", "values differ when floating-point errors are raised / warnings are errors", case=c))
+            except Exception as e:  # noqa: BLE001
+                viol.append(V("valid/strict-numpy-settings", f"admissible parameters {prm} and saturations on the simplex raise "
+                              f"{type(e).__name__} ({e}) when the process runs with np.seterr(all='raise') and warnings as errors: an "
+                              "intermediate is invalid (power of a negative normalised saturation) and only hidden by the default settings", case=c))
             for name in ("kro", "krw", "krg"):
                 a0 = np.asarray(k[name], dtype=float)
                 if k_mix is not None and not np.array_equal(np.asarray(k_mix[name], dtype=float)[:-1], a0, equal_nan=True):
